@@ -216,7 +216,7 @@ int main(int argc, char **argv) {
       {"algebraic constraint index 1 of 1", "C1\nn1\n"}, {"logical constraint index 2 of 2", "L2\nn1\n"}, {"objective index 1 of 1", "O1 0\nn1\n"},
       {"defined variable index 4 (3 variables + 1 expression)", "V4 0 0\nn1\n"}, {"defined variable index 2 (a variable)", "V2 0 0\nn1\n"},
       {"function index 2 of 2", "F2 0 -1 f\n"}, {"function type 2", "F0 2 -1 f\n"},
-      {"variable reference 4", "C0\nv4\n"}, {"function call index 2", "C0\nf2 0\n"}, {"sum with 2 arguments", "C0\no54\n2\nn1\nn2\n"},
+      {"variable reference 4", "C0\nv4\n"}, {"function call index 2", "C0\nf2 0\n"}, {"function call announcing -1 arguments", "C0\nf0 -1\n"}, {"sum with 2 arguments", "C0\no54\n2\nn1\nn2\n"},
       {"suffix kind 8", "S8 1 s\n0 1\n"}, {"linear part of constraint 1 of 1", "J1 1\n0 1\n"}, {"linear term variable 3 of 3", "J0 1\n3 1\n"},
       {"linear part with 4 terms for 3 variables", "J0 4\n0 1\n1 1\n2 1\n0 1\n"}, {"gradient of objective 1 of 1", "G1 1\n0 1\n"},
     };
